@@ -218,6 +218,9 @@ func run(id string, chk *Check, tier string, seed int64, replay string, keep boo
 		if tier == "quick" && u.ThoroughOnly {
 			continue
 		}
+		if only := os.Getenv("VERIF_ONLY_UNIT"); only != "" && only != u.Name {
+			continue // sensitivity experiments only: which unit catches a change (never set by a registered command)
+		}
 		bin := filepath.Join(work, u.Name+".test")
 		ov, err := makeOverlay(u, work)
 		if err != nil {
